@@ -7,4 +7,6 @@ OUTSIDE = ('the larger part of the property: Schedule::applyAction itself (cutti
   'keyword allowed in ACTIONX, per-report-step semantics of WPIMULT/automatic shut-in, sequences of actions')
 ASSUMPTIONS = ['the Schedule object is laid out by the harness (snapshots and action_wgnames only)', 'doubles as reals']
 def jobs(tier):
-    return [dict(name='action_subst_wefac', src='h_subst.cpp', defs={}, entry='h_action_subst', tus=_m.HT, fp='real', loopmax=100000, maxsteps=400000000, timeout=1500, opts=['--ctors'], bounds=BOUNDS)]
+    return [dict(name='action_subst_wefac', src='h_subst.cpp', defs={}, entry='h_action_subst', tus=_m.HT, fp='real', loopmax=100000, maxsteps=400000000, timeout=1500, opts=['--ctors'], bounds=BOUNDS),
+            dict(name='action_subst_weltarg', src='h_subst2.cpp', defs={}, entry='h_action_weltarg', tus=_m.HT + ['opm/input/eclipse/Schedule/Well/WellTestState.cpp'], fp='real', loopmax=100000, maxsteps=400000000, timeout=1500, opts=['--ctors'],
+                 bounds='WELTARG ORAT on two matched wells, one of them open or shut at the application step, symbolic target')]
